@@ -1,4 +1,5 @@
 use crate::*;
+use crate::serialization::utils::check_len;
 
 impl cbor_event::se::Serialize for VRFCert {
     fn serialize<'se, W: Write>(
@@ -16,6 +17,7 @@ impl Deserialize for VRFCert {
     fn deserialize<R: BufRead + Seek>(raw: &mut Deserializer<R>) -> Result<Self, DeserializeError> {
         (|| -> Result<_, DeserializeError> {
             let len = raw.array()?;
+            check_len(len, 2, "(output, proof)")?;
             let output = (|| -> Result<_, DeserializeError> { Ok(raw.bytes()?) })()
                 .map_err(|e| e.annotate("output"))?;
             let proof = (|| -> Result<_, DeserializeError> { Ok(raw.bytes()?) })()
